@@ -19,7 +19,8 @@ From Coq Require Import NArith List Bool.
 Import ListNotations.
 Local Open Scope N_scope.
 
-Definition u32 (x : N) : N := x mod 4294967296.
+(* truncation to uint32: x & 0xffffffff *)
+Definition u32 (x : N) : N := N.land x 4294967295.
 
 (* ------------------------------------------------------------------ murmur3 *)
 
@@ -86,13 +87,15 @@ Definition with_bytes (f : filter) (bs : list N) : filter :=
 Definition blen (bs : list N) : N := N.of_nat (length bs).
 
 (* uint32(len(bf.msg.Filter)) << 3 *)
-Definition nbits (bs : list N) : N := u32 (blen bs * 8).
+Definition nbits (bs : list N) : N := (blen bs * 8) mod 4294967296.
 
 Definition hash_seed (tw i : N) : N := u32 (i * 4221880213 + tw).  (* hashNum*0xfba4c795 + Tweak *)
 
-(* hash(): total here ([x mod 0 = x] in Coq); Go panics when [nbits = 0] *)
-Definition hash_idx (bs : list N) (tw i : N) (data : list N) : N :=
-  mm (hash_seed tw i) data mod nbits bs.
+(* hash() for a filter of [n = nbits bs] bits (the byte length never changes,
+   the loops below compute it once): total here ([x mod 0 = x] in Coq); Go
+   panics when [n = 0] *)
+Definition hash_idx (n : N) (tw i : N) (data : list N) : N :=
+  mm (hash_seed tw i) data mod n.
 
 Definition test_bit (bs : list N) (idx : N) : bool :=
   match nth_error bs (N.to_nat (idx / 8)) with
@@ -115,10 +118,12 @@ Definition idxs (hf : N) : list N := map N.of_nat (seq 0 (N.to_nat hf)).
 
 (* the loops of matches() / add() on a non-empty filter *)
 Definition matches_bits (bs : list N) (hf tw : N) (data : list N) : bool :=
-  forallb (fun i => test_bit bs (hash_idx bs tw i data)) (idxs hf).
+  let n := nbits bs in
+  forallb (fun i => test_bit bs (hash_idx n tw i data)) (idxs hf).
 
 Definition add_bits (bs : list N) (hf tw : N) (data : list N) : list N :=
-  fold_left (fun acc i => set_bit acc (hash_idx acc tw i data)) (idxs hf) bs.
+  let n := nbits bs in
+  fold_left (fun acc i => set_bit acc (hash_idx n tw i data)) (idxs hf) bs.
 
 Definition is_empty (bs : list N) : bool := match bs with [] => true | _ => false end.
 
@@ -188,8 +193,3 @@ Definition match_tx_go (f : filter) (t : tx) : outcome (filter * bool) :=
   if panics f then Panic else Ok (match_tx_and_update f t).
 
 End Filter.
-
-Arguments fbytes : clear implicits.
-Arguments hash_funcs : clear implicits.
-Arguments tweak : clear implicits.
-Arguments tx_types : clear implicits.
